@@ -2941,6 +2941,10 @@ static int32_t parseGeneralNames(psPool_t *pool, const unsigned char **buf,
 #   define MIN_GENERALNAME_LEN 3 /* 1 tag, 1 length octet, 1 content octet.*/
     while (len >= MIN_GENERALNAME_LEN)
     {
+        /* Each entry decides for itself whether it carries a terminating
+           zero byte; do not inherit the decision from an earlier entry. */
+        terminating_nils = 1;
+
         if (firstName == NULL)
         {
             activeName = firstName = psMalloc(pool, sizeof(x509GeneralName_t));
